@@ -5,7 +5,7 @@ CFG = dict(
     exhaustive=True,
     rule="real public API (MapBasic::{abs,shift}, MapValidBasic::{vabs,vshift,ffill,ffill_mask,bfill,bfill_mask,fill,"
          "fill_mask,vclip}, MapValidVec::{vdiff,vpct_change}) at f64 (NaN null), Option<f64>, i32, Option<i32>. "
-         "Exhaustive: every null pattern over {distinct value, null} up to len 6 (f64; Option types len 4, i32 len 8; "
+         "Exhaustive: every null pattern over {distinct value, null} up to len 6 (f64; Option types len 5, i32 len 8; "
          "thorough 7/6) x every lag in -len-3..=len+3 and i32::MIN, i32::MAX x every fill kind (omitted, null, non-null) "
          "for shift/vshift/vdiff; alphabet {value, null, zero} up to len 4 x every lag for vpct_change; every pattern up "
          "to len 6 x fill kinds x 4 extra mask functions for ffill/bfill(_mask), fill(_mask), vabs, abs; vclip with all "
